@@ -130,7 +130,7 @@ def mutable(prog):
         elif k == "expr": s[1] = me(s[1])
         elif k == "block": s[1] = mb(s[1])
         return s
-    return [dict(params=list(f["params"]), ret=f["ret"], body=mb(f["body"])) for f in prog]
+    return [dict(params=list(f["params"]), ret=f["ret"], body=mb(f["body"]), method=bool(f.get("method"))) for f in prog]
 
 def var_of_type(env, pred, rng):
     c = [x for x, t in env.items() if pred(t)]
@@ -234,6 +234,21 @@ def inject(prog, cls, rng):
             st = s.get()
             if st[0] == "let":
                 s.holder.insert(s.idx + 1, ["let", st[1], st[2], copy.deepcopy(st[3]), False]); return m, s.ctx + ("let",)
+    if cls == "redeclared-param":
+        # a local at the top level of a function (or method) body re-using the name of a parameter / of the receiver
+        fis = [fi for fi, f in enumerate(m) if f["params"]]
+        rng.shuffle(fis)
+        fis.sort(key=lambda fi: not m[fi].get("method"))        # methods first: their bodies are collected by separate code
+        for fi in fis:
+            f = m[fi]
+            x, t = rng.choice(f["params"]) if not f.get("method") or rng.random() < 0.5 else f["params"][0]
+            if core.is_struct(t):
+                init = ["slit", core.sid_of(t), [["lit", ft, 1] for ft in core.fields_of(t)]]
+            else:
+                init = ["bool", True] if t == "bool" else ["lit", t, 1]
+            pos = rng.randrange(0, min(3, len(f["body"])) + 1)
+            f["body"].insert(pos, ["let", x, t, init, rng.random() < 0.5])
+            return m, (("method" if f.get("method") else "fn"), "receiver" if (f.get("method") and x == f["params"][0][0]) else "param", "let")
     if cls == "wrong-return-type":
         for s in ssites:
             st = s.get()
@@ -324,7 +339,7 @@ CLASSES = ["mixed-operands", "implicit-narrowing", "nonbool-condition", "nonbool
            "arg-type", "undefined-name", "redeclared", "wrong-return-type", "missing-return-value", "return-value-in-void",
            "call-non-function", "nonbool-logical-literal", "nonbool-condition-literal",
            "struct-unknown-field", "struct-missing-field", "struct-extra-field", "struct-mistyped-field", "struct-type-mismatch",
-           "field-of-non-struct"]
+           "field-of-non-struct", "redeclared-param"]
 # "arith-bool-operand" (`10 - true`, untyped literal with a bool/str operand) is accepted by the unchanged compiler, but arithmetic on
 # non-numeric operands is not in the property's catalogue: the class is implemented above and deliberately NOT enabled.
 
@@ -333,19 +348,11 @@ _r_expr0 = core.r_expr
 def r_expr(e):
     if e[0] == "callvar":
         return "v%d(%s)" % (e[1], ", ".join(r_expr(a) for a in e[2]))
-    if e[0] == "bin": return "(%s %s %s)" % (r_expr(e[2]), e[1], r_expr(e[3]))
-    if e[0] == "un": return "(%s%s)" % (e[1], r_expr(e[2]))
-    if e[0] == "cast": return "(%s as %s)" % (r_expr(e[1]), e[2])
-    if e[0] == "call": return "f%d(%s)" % (e[1], ", ".join(r_expr(a) for a in e[2]))
-    return _r_expr0(e)
+    return _r_expr0(e)      # core's renderer recurses through the module-level name, i.e. through this function
 _c_expr0 = core.c_expr
 def c_expr(e, types=None):
     if e[0] == "callvar":
         return "(ECall 9999 [%s])" % "; ".join(c_expr(a) for a in e[2])
-    if e[0] == "bin": return "(EBin %s %s %s)" % (core.COQ_OP[e[1]], c_expr(e[2]), c_expr(e[3]))
-    if e[0] == "un": return "(EUn %s %s)" % ("Neg" if e[1] == "-" else "Not", c_expr(e[2]))
-    if e[0] == "cast": return "(ECast %s %s)" % (c_expr(e[1]), core.c_ity(e[2]))
-    if e[0] == "call": return "(ECall %d [%s])" % (e[1], "; ".join(c_expr(a) for a in e[2]))
     return _c_expr0(e)
 core.r_expr = r_expr
 core.c_expr = c_expr
@@ -425,7 +432,7 @@ def main(run):
             run.count("base-rejected-by-compiler")   # reported by C01, not here
             continue
         for cls in CLASSES:
-            for _ in range(per if cls in ("mixed-operands", "implicit-narrowing", "arg-type", "struct-mistyped-field") else 1):
+            for _ in range(per if cls in ("mixed-operands", "implicit-narrowing", "arg-type", "struct-mistyped-field", "redeclared-param") else 1):
                 r = inject(p, cls, run.rng)
                 if r is None:
                     run.count("n/a:" + cls); continue
